@@ -60,3 +60,59 @@ def WFHolderL (endRe : Re) (h : Text) : Bool :=
     noEndSuffix endRe h
 
 end Spec
+
+/-! ### merging, stated on lines (`C20.C20_merge_lines`) -/
+
+namespace Spec
+open Py Model
+
+/-- the years a year form states -/
+def YearForm.stated : YearForm → List Text
+  | .none => []
+  | .single y => [y]
+  | .range y1 _ _ y2 => [y1, y2]
+
+/-- one input notice of `merge_copyright_lines`: an entry of the prefix table, a year form, a holder -/
+structure Notice where
+  shape : Text × CPat × Text
+  year : YearForm
+  holder : Text
+
+/-- the line `make_copyright_line` builds for it -/
+def Notice.line (n : Notice) : Text := builtLine n.shape.1 n.year n.holder
+
+/-- well-formed parts: the hypotheses of `C20_make_parse` -/
+def Notice.ok (endRe : Re) (n : Notice) : Prop :=
+  n.shape ∈ prefixShapes ∧ n.year.wf = true ∧ WFHolderL endRe n.holder = true ∧ noNoticeInside n.holder = true
+
+/-- every year stated for holder `h` in the input -/
+def statedFor (ns : List Notice) (h : Text) : List Text :=
+  (ns.filter (·.holder == h)).flatMap (·.year.stated)
+
+/-- the prefix texts of the notices of holder `h` -/
+def prefixesFor (ns : List Notice) (h : Text) : List Text :=
+  (ns.filter (·.holder == h)).map (·.shape.1)
+
+/-- the year form of the merged line -/
+def mergedForm (years : List Text) : YearForm :=
+  match yearMin years, yearMax years with
+  | some lo, some hi => if yearVal lo == yearVal hi then .single lo else .range lo true true hi
+  | _, _ => .none
+
+/-- `o` is the merged line of holder `h`: a built line (table prefix — the most common one among the
+    holder's notices —, well-formed year form, the holder) which the tool's reader reads back as
+    exactly that prefix, year and holder; no year if none was stated, else a single year or a range
+    `lo - hi` whose ends are stated years and numerically enclose every year stated for `h`. -/
+def MergedLine (endRe : Re) (ns : List Notice) (h o : Text) : Prop :=
+  ∃ px ∈ prefixShapes, ∃ ym : YearForm,
+    ym.wf = true ∧ o = builtLine px.1 ym h ∧
+    searchLineWith endRe o = some { pref := px.1, year := ym.text, statement := h, whole := o } ∧
+    parseYear ym.text = ym.stated ∧
+    px.1 ∈ prefixesFor ns h ∧
+    (∀ p ∈ prefixesFor ns h, (prefixesFor ns h).count p ≤ (prefixesFor ns h).count px.1) ∧
+    ((statedFor ns h = [] ∧ ym = .none) ∨
+     ∃ lo ∈ statedFor ns h, ∃ hi ∈ statedFor ns h,
+       (∀ y ∈ statedFor ns h, yearVal lo ≤ yearVal y ∧ yearVal y ≤ yearVal hi) ∧
+       ((yearVal lo = yearVal hi ∧ ym = .single lo) ∨ (yearVal lo < yearVal hi ∧ ym = .range lo true true hi)))
+
+end Spec
